@@ -60,6 +60,15 @@ CHECKS = {
             "read of the same bytes (first model, first alt-loc per identity, waters iff no --drop-water).",
             "Trusted: the wwPDB column layout; alternate atom names normalised through an own parse of AA/NA.xml; "
             "coordinate records are well-formed and residues contiguous by construction.", "DESIGN.md#c07"),
+    "C01": ("exploration", "reference-model monitor: independent DAT/.names interpreter vs the real Forcefield table, every in-vivo get_params call, and every atom of whole runs under an independently derived state name",
+            "Three monitors on real executions: the complete (residue, atom) table of each built-in and random user "
+            "force field is compared entry by entry with an independent interpreter of the documented file formats; "
+            "every Forcefield.get_params call inside a run is compared with that model; and every atom returned / "
+            "written is compared with the model row looked up under a state name derived from generator ground truth "
+            "and the atoms present (never residue.ffname) - no row means absent from the PQR and reported unassigned.",
+            "Trusted: the harness interpreter of dat.rst / xml-names.rst semantics; generator ground truth for chain "
+            "ends; the parameter files themselves are the specification (an edited .DAT is a different force field, "
+            "not a violation).", "DESIGN.md#c01"),
 }
 
 NOT_APPLICABLE = {}
